@@ -658,12 +658,16 @@ func (st *AclState) applyRequestAccept(ch *aclrecordproto.AclAccountRequestAccep
 	if err != nil {
 		return err
 	}
-	requestRecord, _ := st.requestRecords[ch.RequestRecordId]
+	requestRecord, exists := st.requestRecords[ch.RequestRecordId]
+	if !exists {
+		// without content validation nothing guarantees that the request is known
+		return ErrNoSuchRequest
+	}
 	pKeyString := mapKeyFromPubKey(acceptIdentity)
-	state, exists := st.accountStates[pKeyString]
+	state, accountExists := st.accountStates[pKeyString]
 	permissions := AclPermissions(ch.Permissions)
 	permissionChanges := []PermissionChange{{Permission: permissions, RecordId: record.Id}}
-	if exists {
+	if accountExists {
 		permissionChanges = append(state.PermissionChanges, permissionChanges[0])
 	}
 
@@ -675,7 +679,7 @@ func (st *AclState) applyRequestAccept(ch *aclrecordproto.AclAccountRequestAccep
 		Status:            StatusActive,
 		PermissionChanges: permissionChanges,
 	}
-	delete(st.pendingRequests, mapKeyFromPubKey(st.requestRecords[ch.RequestRecordId].RequestIdentity))
+	delete(st.pendingRequests, mapKeyFromPubKey(requestRecord.RequestIdentity))
 	delete(st.requestRecords, ch.RequestRecordId)
 
 	// If the current account is the one being accepted, then decrypt the read key using its private key
@@ -787,7 +791,11 @@ func (st *AclState) applyRequestDecline(ch *aclrecordproto.AclAccountRequestDecl
 	if err != nil {
 		return err
 	}
-	pk := mapKeyFromPubKey(st.requestRecords[ch.RequestRecordId].RequestIdentity)
+	requestRecord, exists := st.requestRecords[ch.RequestRecordId]
+	if !exists {
+		return ErrNoSuchRequest
+	}
+	pk := mapKeyFromPubKey(requestRecord.RequestIdentity)
 	accSt, exists := st.accountStates[pk]
 	if !exists {
 		return ErrNoSuchAccount
@@ -804,7 +812,11 @@ func (st *AclState) applyRequestCancel(ch *aclrecordproto.AclAccountRequestCance
 	if err != nil {
 		return err
 	}
-	pk := mapKeyFromPubKey(st.requestRecords[ch.RecordId].RequestIdentity)
+	requestRecord, exists := st.requestRecords[ch.RecordId]
+	if !exists {
+		return ErrNoSuchRequest
+	}
+	pk := mapKeyFromPubKey(requestRecord.RequestIdentity)
 	accSt, exists := st.accountStates[pk]
 	if !exists {
 		return ErrNoSuchAccount
